@@ -456,7 +456,7 @@ func formatLayers(tier string) []Layer {
 		var base []*Opnd
 		k := 2
 		if thorough {
-			k = 3
+			k = 4
 		}
 		for _, cf := range DCoefs(k) {
 			base = append(base, mkInt64(cf, 0, 34, 0))
